@@ -165,10 +165,11 @@ class Hist:
         else:
             idx = self._group(['%d fill_var_rec 0 %d %d' % (k, VARS[var], recnos[k]) for k in range(self.np)])
         done = [r + 1 for r in recnos]
-        misuse = self.indep or self.indef          # documented: collective data mode only
-        self.own = [max(o, d) for o, d in zip(self.own, done)]
-        st = dict(kind='fill', cls='collwrite', oplines=idx, done=done, mops=[('FillRec', list(recnos))], misuse=misuse,
-                  accepted=True)
+        ok = not self.indef and not self.indep          # otherwise the dispatcher returns NC_EINDEFINE / NC_EINDEP
+        if ok:
+            self.own = [max(o, d) for o, d in zip(self.own, done)]
+        st = dict(kind='fill', cls='collwrite', oplines=idx, done=done, mops=[('FillRec', list(recnos))], misuse=False,
+                  accepted=ok)
         self._finish(st, True)
 
     def post(self, k, var, acc, api='iput'):
@@ -610,9 +611,10 @@ def directed():
     # fill_var_rec, per-rank record numbers, lower than the current count
     h = Hist(2, 5, name='fill')
     h.fill('R', [3, 3]); h.fill('R', [1, 1]); h.fill('R', [5, 7]); h.coll_put('R', [('vars', 2, 2, 3), None]); h.simple('reopen'); h.close(); hs.append(h)
-    # fill in independent mode (dispatcher computes NC_EINDEP but does not return it outside safe mode)
-    h = Hist(2, 1, name='fill-indep-misuse')
-    h.simple('begin_indep'); h.indep_put(1, 'R', ('vara', 5, 1)); h.fill('R', [2, 2]); h.simple('end_indep'); h.close(); hs.append(h)
+    # fill in independent mode and in define mode is rejected (NC_EINDEP / NC_EINDEFINE) with no effect on any rank
+    h = Hist(2, 1, name='fill-indep-rejected')
+    h.simple('begin_indep'); h.indep_put(1, 'R', ('vara', 5, 1)); h.fill('R', [2, 2]); h.simple('end_indep')
+    h.simple('redef'); h.fill('R', [8, 8]); h.simple('enddef'); h.fill('R', [3, 3]); h.close(); hs.append(h)
     # record 0 of the same variable posted later: req_off equals the queued entry's varp->begin (`<=` keeps post order)
     h = Hist(2, 1, name='sort-equal-begin')
     a = h.post(1, 'R', ('vara', 5, 1)); b = h.post(1, 'R', ('vara', 0, 1)); c = h.post(1, 'F', ('vara', 0, 1)); d = h.post(1, 'F', ('vara', 1, 1))
@@ -672,7 +674,7 @@ def apply_letter(h, a, last, variant=0):
         h.simple('reopen'); last[0] = last[1] = None
 
 
-COLL_ONLY = ('CP0', 'CP1', 'CPF', 'WALL', 'WLAST', 'VARN')
+COLL_ONLY = ('CP0', 'CP1', 'CPF', 'FILL', 'WALL', 'WLAST', 'VARN')
 INDEP_ONLY = ('IP0', 'IP1', 'WI0')
 
 
